@@ -508,6 +508,8 @@ def run_history(ctx, job, pname, hist):
                 model.secrets.clear()
                 model.secrets.update(moved)
                 model.own["root"] = "root2"
+                if CTMODE[0] == "instance":
+                    model.own["ct"] = None        # the new root's config-type instance was never given a key file of its own
                 cfg = other
         except Exception as exc:  # noqa
             bad("op-raises|%s|%s" % (op, _blame(exc)), "step %d (%s) raised %r" % (i, op, exc))
